@@ -9,7 +9,10 @@ RULE = ('source scripts in the AST of the independent specification tie/lingo_sp
         'straight-line handlers (1-3 per script, 0-3 parameters, 0-6 locals, script and handler globals, declared '
         'properties) with expression trees to depth 3 (quick) / 6 (thorough) over integers in every operand form (zero, '
         '1-byte, 2-byte, pool), strings, symbols, all variable kinds, local and external calls in both positions, linear '
-        'and property lists incl. counts >= 256; name tables in random order with short names. The emitted Lingo is read '
+        'and property lists incl. counts >= 256; the further instruction families (by-name, sprite / cast / sound / field / menu / '
+        'system / special / date-time / key properties read and written, chunk expressions with 1-4 ranges, put into / after / '
+        'before on locals, fields and chunks of locals, fields and globals, delete, hilite, tell blocks); name tables in random '
+        'order with short names. The emitted Lingo is read '
         'back by the independent precedence parser and compared with the source tree. Non-trivial = a script with an '
         'expression of depth >= 2; distinct by SHA1 of the source.')
 EXPLANATION = ('Coq: compile/decompile inversion for the expression and statement core (unbounded), emitted text = canonical '
@@ -38,6 +41,9 @@ def gen_cases(rng, tier):
     for i in range(n):
         depth = rng.choice([1, 2, 3]) if tier == 'quick' else rng.choice([2, 3, 4, 6])
         yield {'tag': 'random', 'script': g.script(depth=depth)}
+    gx = H.GenExt(rng)
+    for i in range(700 if tier == 'quick' else 8000):
+        yield {'tag': 'ext', 'script': gx.ext_script()}
     for s in big_lists(rng):
         yield {'tag': 'biglist', 'script': s}
     for s in keyword_symbols(rng):
